@@ -4,7 +4,7 @@
 From Coq Require Import List Arith NArith Bool Lia.
 Import ListNotations.
 Require Import MText MRound MRound2 MRound3 MkModel MkEval MkEvalP MkFmtP.
-Require Names.
+Require Names NamesLaws.
 Open Scope N_scope.
 Arguments N.eqb : simpl never.
 Arguments N.leb : simpl never.
@@ -118,39 +118,56 @@ Qed.
 
 (* ---------------- canonicalize_name and the characters literals are classified by ---------------- *)
 (* a character that is neither a separator nor a lower-case letter can only come out of canonicalize_name if it went in *)
-Definition inert (q : char) : Prop := Names.is_sep q = false /\ Names.is_lower q = false.
-Lemma lower_inert q c : inert q -> Names.lower c = q -> c = q.
-Proof.
-  intros [_ Hl] E. unfold Names.lower in E. destruct (Names.is_upper c) eqn:U; auto.
-  exfalso. unfold Names.is_upper in U. apply andb_prop in U as [U1 U2]. apply N.leb_le in U1, U2.
-  unfold Names.is_lower in Hl. subst q. apply andb_false_iff in Hl as [Hl|Hl]; apply N.leb_gt in Hl; lia.
-Qed.
+Definition inert (q : char) : Prop := VParse.is_sep q = false /\ VParse.is_lower q = false /\ q <> 775.
 Lemma has_char_cons (q c : char) (s : str) : has_char q (c :: s) = (q =? c) || has_char q s.
 Proof. reflexivity. Qed.
-Lemma has_collapse (q : char) : inert q -> forall (s : str) b, has_char q (Names.collapse b s) = true -> has_char q s = true.
+Lemma has_char_app (q : char) (a b : str) : has_char q (a ++ b) = has_char q a || has_char q b.
+Proof. induction a as [|c a IH]; cbn [app]; auto. rewrite !has_char_cons, IH. now rewrite orb_assoc. Qed.
+(* str.lower() (VMeaning.py_lower_c) produces c+32 for an upper-case letter, "i" U+0307 for U+0130, "k" for U+212A, else the character itself *)
+Lemma lower_inert q c : inert q -> has_char q (VMeaning.py_lower_c c) = true -> c = q.
 Proof.
-  intros Hq. induction s as [|c s IH]; intros b; cbn [Names.collapse]; auto.
-  rewrite (has_char_cons q c s). destruct (Names.is_sep c) eqn:Sc.
+  intros (_ & Hl & H7). unfold VMeaning.py_lower_c.
+  destruct ((65 <=? c) && (c <=? 90)) eqn:U.
+  - rewrite has_char_cons. cbn [has_char]. rewrite orb_false_r. intros E. apply N.eqb_eq in E. exfalso.
+    apply andb_prop in U as [U1 U2]. apply N.leb_le in U1, U2. unfold VParse.is_lower in Hl. subst q.
+    apply andb_false_iff in Hl as [Hl|Hl]; apply N.leb_gt in Hl; lia.
+  - destruct (c =? 304).
+    + rewrite !has_char_cons. cbn [has_char]. rewrite orb_false_r. intros E. apply orb_prop in E as [E|E]; apply N.eqb_eq in E; subst q; [discriminate Hl | congruence].
+    + destruct (c =? 8490).
+      * rewrite has_char_cons. cbn [has_char]. rewrite orb_false_r. intros E. apply N.eqb_eq in E. subst q. discriminate Hl.
+      * rewrite has_char_cons. cbn [has_char]. rewrite orb_false_r. intros E. apply N.eqb_eq in E. now subst.
+Qed.
+Lemma has_py_lower (q : char) : inert q -> forall s : str, has_char q (VMeaning.py_lower s) = true -> has_char q s = true.
+Proof.
+  intros Hq. induction s as [|c s IH]; auto. unfold VMeaning.py_lower. cbn [flat_map]. fold (VMeaning.py_lower s).
+  rewrite has_char_app, has_char_cons. intros H. apply orb_prop in H as [H|H].
+  - apply (lower_inert q c Hq) in H. subst c. now rewrite N.eqb_refl.
+  - rewrite (IH H). apply orb_true_r.
+Qed.
+Lemma has_collapse (q : char) : inert q -> forall (s : str) b, has_char q (Names.sub_runs b s) = true -> has_char q s = true.
+Proof.
+  intros Hq. induction s as [|c s IH]; intros b; cbn [Names.sub_runs]; auto.
+  rewrite (has_char_cons q c s). destruct (VParse.is_sep c) eqn:Sc.
   - destruct b.
     + intros H. rewrite (IH _ H). apply orb_true_r.
     + rewrite has_char_cons. intros H. apply orb_prop in H as [H|H].
       * apply N.eqb_eq in H. subst q. destruct Hq as [Hs _]. discriminate.
       * rewrite (IH _ H). apply orb_true_r.
   - rewrite has_char_cons. intros H. apply orb_prop in H as [H|H].
-    + apply N.eqb_eq in H. symmetry in H. apply (lower_inert q c Hq) in H. subst c. now rewrite N.eqb_refl.
+    + rewrite H. reflexivity.
     + rewrite (IH _ H). apply orb_true_r.
 Qed.
 Lemma has_canon (q : char) (v : str) : inert q -> has_char q v = false -> has_char q (Names.canon_name v) = false.
 Proof.
   intros Hq H. destruct (has_char q (Names.canon_name v)) eqn:E; auto.
-  apply (has_collapse q Hq) in E. congruence.
+  unfold Names.canon_name in E. apply (has_py_lower q Hq) in E. apply (has_collapse q Hq) in E. congruence.
 Qed.
-Lemma inert_0 : inert 0. Proof. split; reflexivity. Qed.
-Lemma inert_10 : inert 10. Proof. split; reflexivity. Qed.
-Lemma inert_13 : inert 13. Proof. split; reflexivity. Qed.
-Lemma inert_34 : inert 34. Proof. split; reflexivity. Qed.
-Lemma inert_39 : inert 39. Proof. split; reflexivity. Qed.
-Lemma inert_92 : inert 92. Proof. split; reflexivity. Qed.
+Lemma inert_0 : inert 0. Proof. repeat split; try reflexivity; discriminate. Qed.
+Lemma inert_10 : inert 10. Proof. repeat split; try reflexivity; discriminate. Qed.
+Lemma inert_13 : inert 13. Proof. repeat split; try reflexivity; discriminate. Qed.
+Lemma inert_34 : inert 34. Proof. repeat split; try reflexivity; discriminate. Qed.
+Lemma inert_39 : inert 39. Proof. repeat split; try reflexivity; discriminate. Qed.
+Lemma inert_92 : inert 92. Proof. repeat split; try reflexivity; discriminate. Qed.
 
 Lemma wf_side_canon v : wf_side (SVal v) -> wf_side (SVal (Names.canon_name v)).
 Proof.
@@ -228,11 +245,11 @@ Proof. rewrite !lit_class_ok. apply norm_l_lits. exact lit_good_canon. Qed.
 Lemma norm_item_idem l o r : norm_e (norm_item l o r) = norm_item l o r.
 Proof.
   unfold norm_item. destruct (is_extra l) eqn:El.
-  - destruct r as [n|v]; cbn [norm_e]; unfold norm_item; rewrite El; [reflexivity|]. now rewrite Names.C13_canon_idempotent.
+  - destruct r as [n|v]; cbn [norm_e]; unfold norm_item; rewrite El; [reflexivity|]. now rewrite NamesLaws.canon_idempotent.
   - destruct (is_extra r) eqn:Er.
     + destruct l as [n|v]; cbn [norm_e]; unfold norm_item.
       * now rewrite El, Er.
-      * cbn [is_extra]. rewrite Er. now rewrite Names.C13_canon_idempotent.
+      * cbn [is_extra]. rewrite Er. now rewrite NamesLaws.canon_idempotent.
     + cbn [norm_e]. unfold norm_item. now rewrite El, Er.
 Qed.
 Lemma norm_idem : forall e, norm_e (norm_e e) = norm_e e.
